@@ -138,6 +138,25 @@ def enumerate_cases(tier):
             s['pipes'] = [_pipe('L1', 'J1', 'T1'), _pipe('L2', 'T1', 'J2')]
             s['controls'] = [{'kind': 'time', 'at': 3 * 3600, 'link': 'PU1', 'attr': 'pump_curve_name', 'value': 'HC2'}]
             yield {'spec': s, 'rules': [], 'pauses': [pause * 3600], 'pickle': [pk]}
+    # a regulating valve whose upstream side is cut off from every source by a time control (or a rule) after the pause:
+    # what the simulator does with such a valve must not depend on the model having been simulated before
+    for vt, setting in (('PRV', 20.0), ('FCV', 0.002)):
+        for by_rule in (False, True):
+            for pauses, pk in (([2 * 3600], False), ([4 * 3600], True), ([2 * 3600, 4 * 3600], False)):
+                s = _base(_opts(8 * 3600, 3600))
+                s['reservoirs'] = [{'name': 'R1', 'head': 70.0, 'pat': None}]
+                s['tanks'] = [{'name': 'T1', 'elev': 30.0, 'init': 3.0, 'min': 0.0, 'max': 8.0, 'diam': 12.0, 'min_vol': 0.0,
+                               'vol_curve': None}]
+                s['junctions'] = [_junction('J1', 5.0, 0.001), _junction('J2', 5.0, 0.003, 'P1'), _junction('J3', 4.0, 0.001)]
+                s['pipes'] = [_pipe('L1', 'R1', 'J1'), _pipe('L2', 'J1', 'J3'), _pipe('L3', 'J2', 'T1')]
+                s['valves'] = [{'name': 'V1', 'a': 'J1', 'b': 'J2', 'type': vt, 'diam': 0.3, 'minor': 0.0, 'setting': setting,
+                                'status': 'ACTIVE'}]
+                rules = []
+                if by_rule:
+                    rules = [{'cond': ['time', '>=', 6 * 3600], 'then': [['L1', 'status', 'CLOSED']], 'else': [], 'priority': 3}]
+                else:
+                    s['controls'] = [{'kind': 'time', 'at': 6 * 3600, 'link': 'L1', 'attr': 'status', 'value': 'CLOSED'}]
+                yield {'spec': s, 'rules': rules, 'pauses': pauses, 'pickle': [pk] * len(pauses)}
 
 
 def summarize(case):
@@ -220,6 +239,23 @@ def check(case):
             return fail(exc_bucket(run.exception, 'part%d_raises' % min(k, 1)),
                         'part %d (to %d s, after pauses %s) raised %r' % (k, end, case['pauses'][:k], run.exception), tags)
         if not run.ok:
+            # the uninterrupted run went through; a continuation that cannot is only judged when it fails the same way
+            # a second time on an independent fresh build (twice the same = not run-to-run noise), not pickled
+            if k >= 1:
+                wn2 = build(case)
+                again = None
+                for k2, end2 in enumerate(ends[:k + 1]):
+                    wn2.options.time.duration = end2
+                    again = S.run_wntr(wn2, hw_approx=hw, tol=1e-8, maxiter=1500)
+                    if again.exception is not None or (not again.ok and k2 < k):
+                        again = None
+                        break
+                if again is not None and not again.ok and len(again.times) == len(run.times):
+                    last = int(run.times[-1]) if len(run.times) else None
+                    return fail('continuation_stops/uninterrupted_run_converges',
+                                'the uninterrupted run converged to %d s, but part %d of the paused run (pauses %s) stops: '
+                                'last reported time %s (the same on a second, independent execution)'
+                                % (o['duration'], k, case['pauses'], last), tags)
             return inconclusive('a part did not converge', tags)
         parts.append(run)
         if k < len(case['pauses']) and case['pickle'][k]:
